@@ -2,7 +2,7 @@
 From Coq Require Import QArith List Bool PArith Arith Lia.
 From PV Require Import Base.PyData Base.Expr Base.Stmts C02.Model C02.CondPrint C02.ProofsLcs C02.ProofsLcsOpt
   C02.ProofsPrint C02.ProofsPrint2 C02.ProofsCond C02.Remap C02.ProofsRemap C02.PrintSeq C02.ProofsPrintSeq
-  C02.IndexDiff C02.ProofsIndexDiff.
+  C02.IndexDiff C02.ProofsIndexDiff C02.KeepText C02.ProofsKeepText C02.Read C02.ProofsRead.
 
 (* ---------------- lcs.diff (used by CodeRecord.update_statements) ---------------------------- *)
 (* Applying the edit script computed for (old, new) to old gives new — for all lists over any type
@@ -74,6 +74,35 @@ Theorem index_diff_total :
 Proof.
   intros A eqb Hs last index old new Hw Ht. apply isd_total; [lia | exact Hw |].
   unfold count_nonins. rewrite (proj1 (diff_spells A eqb Hs old new)). symmetry; exact Ht.
+Qed.
+
+(* Unchanged statements keep their source text: for every record (list of parse-tree nodes of any type),
+   every node index, every old and new statement list and every printer of new statements, each group of
+   statements that update_statements keeps (an op-0 entry of the regrouped lcs diff) has its nodes
+   children[ni:nj] — the original text including comments and layout — verbatim and contiguous in the new
+   record. *)
+Theorem update_statements_keeps_text :
+  forall (A N : Type) (gen : A -> list N) (eqb : A -> A -> bool), (forall x y, eqb x y = true <-> x = y) ->
+  forall (children : list N) (first : nat) (index : list ientry) (old new : list A) (es : list (oentry A)),
+    index_statements_diff first index (diff eqb old new) = Some es ->
+    forall stmts ni nj, In (Keep, stmts, ni, nj) es ->
+      infix (slice children ni nj) (new_children gen children es).
+Proof. intros A N gen eqb _ children first index old new es _ stmts ni nj. apply build_keeps. Qed.
+
+(* ... and as many as possible do: when every statement has its own node group (the normal case: one
+   statement per line), the statements whose nodes are kept are exactly the Keep operations of the diff,
+   and their number is the length of a longest common subsequence of old and new. *)
+Theorem update_statements_keeps_most :
+  forall (A : Type) (eqb : A -> A -> bool), (forall x y, eqb x y = true <-> x = y) ->
+  forall (first : nat) (index : list ientry) (old new : list A) (es : list (oentry A)),
+    singleton_index index = true ->
+    index_statements_diff first index (diff eqb old new) = Some es ->
+    kept_statements es = kept (diff eqb old new) /\
+    length (kept_statements es) = lcs_length eqb old new.
+Proof.
+  intros A eqb Hs first index old new es Hi H.
+  pose proof (isd_singleton_kept A _ first index _ es Hi H) as E. split; [exact E|].
+  rewrite E. exact (diff_kept_optimal A eqb Hs old new).
 Qed.
 
 (* ---------------- nmtran_assignment_string --------------------------------------------------- *)
@@ -161,3 +190,12 @@ Theorem new_compartmental_map_numbers :
   forall names k name, NoDup names -> nth_error names k = Some name ->
     alookup (new_compartmental_map names) name = Some (S k).
 Proof. intros names k name ND H. exact (new_cmap_from_spec names 1 nil k name ND H). Qed.
+
+(* ---------------- the reference reader (C02/Read.v) ------------------------------------------- *)
+(* The arithmetic reader never changes its verdict when given more fuel: once p_expr has answered
+   (a value with the remaining tokens, or "not in the language"), every larger budget gives the same
+   answer — for all token lists.  (Out-of-fuel is a separate outcome, never a verdict.) *)
+Theorem read_expr_fuel_monotone :
+  forall (f f' : nat) (ts : list tok) (v : expr) (rest : list tok),
+    p_expr f ts = Ok v rest -> (f <= f')%nat -> p_expr f' ts = Ok v rest.
+Proof. intros f f' ts v rest H L. exact (lift_expr f ts v rest f' H L). Qed.
